@@ -303,6 +303,33 @@ def run(ctx):
                              {'kind': 'roundtrip', 'new': res})
         elif form_c != 'lists' and form_g != 'lists':
             ctx.fail('slots:to_new-raises', res, {'kind': 'to_new', 'old': old})
+    # Slot.__init__ from its three input forms, and the plain-dict round trip of every slot seen above
+    from radical.pilot.resource_config import RO
+    for _ in range(ctx.n(200, 6000)):
+        def res(n):
+            idx = rng.sample(range(16), n)
+            form = rng.choice(['ints', 'dicts', 'ros'])
+            occ = [16 if form == 'ints' else rng.choice([16, 8, 4]) for _ in idx]
+            items = [i if form == 'ints' else {'index': i, 'occ': o} for i, o in zip(idx, occ)]
+            real = [i if form == 'ints' else ({'index': i, 'occupation': o / 16.0} if form == 'dicts' else RO(index=i, occupation=o / 16.0))
+                    for i, o in zip(idx, occ)]
+            return {'form': form, 'items': items}, real
+        cm, cr = res(rng.choice([0, 1, 2, 3]))
+        gm, gr = res(rng.choice([0, 0, 1, 2, 3]))
+        d = {'lfs': rng.choice([0, 5]), 'mem': rng.choice([0, 7]), 'node_index': rng.randrange(4), 'node_name': 'n%d' % rng.randrange(4)}
+        op = {'op': 'slot_init', 'slot': dict(d, cores=cm, gpus=gm)}
+        try:
+            sl = Slot(from_dict=dict(copy.deepcopy(d), cores=cr, gpus=gr))
+            got = slot_canon(sl.as_dict())
+            back = slot_canon(Slot(from_dict=copy.deepcopy(sl.as_dict())).as_dict())
+        except Exception as e:
+            got, back = type(e).__name__, None
+        ops.append(op); impl.append(got)
+        ctx.case(op, nontrivial=bool(gr) and [x['index'] if isinstance(x, dict) else x for x in gm['items']] != [x['index'] if isinstance(x, dict) else x for x in cm['items']])
+        if isinstance(got, dict) and back != got:
+            ctx.fail('slots:dict-roundtrip-changes-slot', 'Slot %s -> as_dict -> Slot gives %s' % (got, back),
+                     {'kind': 'slot_dict', 'slot': dict(d, cores=[[i['index'], i['occ']] if isinstance(i, dict) else [i, 16] for i in cm['items']],
+                                                        gpus=[[i['index'], i['occ']] if isinstance(i, dict) else [i, 16] for i in gm['items']])})
     # lists of slots (one per rank): every slot converts as it converts alone
     for _ in range(ctx.n(300, 8000)):
         pick = [rng.choice(singles) for _ in range(rng.choice([2, 2, 3, 4]))]
@@ -375,6 +402,14 @@ def replay(ctx, data):
         except Exception as e:
             print('observed:', repr(e))
             return False
+    if i['kind'] == 'slot_dict':
+        from radical.pilot.resource_config import Slot, RO
+        sd = i['slot']
+        sl = Slot(cores=[RO(index=a, occupation=b / 16.0) for a, b in sd['cores']], gpus=[RO(index=a, occupation=b / 16.0) for a, b in sd['gpus']],
+                  lfs=sd['lfs'], mem=sd['mem'], node_index=sd['node_index'], node_name=sd['node_name'])
+        a = slot_canon(sl.as_dict()); b = slot_canon(Slot(from_dict=copy.deepcopy(sl.as_dict())).as_dict())
+        print('observed:', a, '->', b)
+        return a == b
     if i['kind'] == 'to_new_list':
         from radical.pilot.utils.misc import convert_slots_to_new
         def fix(o):       # JSON turned the (index, occupation) tuples into lists
